@@ -5,6 +5,7 @@ import (
 	"fmt"
 	"math/big"
 	"reflect"
+	"strings"
 
 	abci "github.com/cometbft/cometbft/abci/types"
 	sdk "github.com/cosmos/cosmos-sdk/types"
@@ -134,6 +135,8 @@ type World struct {
 	Div []string
 	// Scratch is per-case generator memory (e.g. attestations signed earlier).
 	Scratch map[string]any
+	// Restarts counts genesis round trips; RestartLostPending those that lost a pending owner (F3).
+	Restarts, RestartLostPending int
 }
 
 func NewWorld(g *GenSpec) (*World, error) {
@@ -185,6 +188,44 @@ func (w *World) ApplyLedgerOp(lo *LedgerOp) {
 	}
 }
 
+// Restart exports the module's genesis, initialises a fresh chain from it and carries the
+// dependency's (ledger) store over verbatim: a chain upgrade / genesis round trip in the middle of a
+// history. The pending-owner slot has no genesis field (known finding F3): the model follows the chain
+// there and the loss is counted.
+func (w *World) Restart() error {
+	raw, err := w.Chain.ExportJSON()
+	if err != nil {
+		return err
+	}
+	dump := w.Chain.RawKV(w.Chain.LedgKey)
+	c2, err := chain.New(chain.Genesis{Cctp: raw, Ledger: chain.LedgerGenesis{MintingDenom: w.Model.L.Denom}})
+	if err != nil {
+		return err
+	}
+	s := c2.LedgerStore()
+	var old [][]byte
+	it := s.Iterator(nil, nil)
+	for ; it.Valid(); it.Next() {
+		old = append(old, append([]byte{}, it.Key()...))
+	}
+	it.Close()
+	for _, k := range old {
+		s.Delete(k)
+	}
+	for _, kv := range dump {
+		i := strings.IndexByte(kv, '=')
+		s.Set(UnHex(kv[:i]), UnHex(kv[i+1:]))
+	}
+	c2.DeliverBlock(nil)
+	w.Chain = c2
+	w.Restarts++
+	if w.Model.Pending != nil {
+		w.Model.Pending = nil
+		w.RestartLostPending++
+	}
+	return nil
+}
+
 // Exec executes one op in its own block.
 func (w *World) Exec(op *Op) *Step { return w.ExecBlock([]*Op{op})[0] }
 
@@ -197,6 +238,10 @@ func (w *World) ExecBlock(ops []*Op) []*Step {
 		st := &Step{Idx: len(w.Steps) + len(steps), Op: op}
 		steps = append(steps, st)
 		switch op.Kind {
+		case "restart":
+			if err := w.Restart(); err != nil {
+				panic(fmt.Errorf("restart: %w", err))
+			}
 		case "ledger":
 			// applied before the block's transactions
 			w.ApplyLedgerOp(op.Ledger)
